@@ -396,6 +396,13 @@ class PeerConnection:
         return f"<PeerConnection({self.ident}, {self.node_name}>"
 
     def __dispatch_message(self, msg: _AnyMessageType):
+        if self.state in (PEER_CONNECTING, PEER_CLOSING, PEER_CLOSED):
+            # nothing is processed before the socket is up, nor once the
+            # connection is being closed (e.g. after a rejected CER)
+            self.logger.warning(
+                f"cannot process message in the current connection state, "
+                f"ignoring")
+            return
         if self.state == PEER_CONNECTED:
             if msg.header.command_code != constants.CMD_CAPABILITIES_EXCHANGE:
                 self.logger.warning(
